@@ -24,11 +24,14 @@
    call site in ipv4.HandlePacket                                -> C08_ipv4_frag_args,
         C08_ipv4_empty_fragment
    C08_example: the hypotheses are satisfiable by a non-trivial history.
+   C08_monitor_coverage_test: the executable coverage test of the correspondence monitor
+        (Corr/C08.v, coveredb) decides exactly the predicate [covers] of the theorems.
 
    Datagram sizes: the theorems hold for 1 <= |D| <= 65535, which includes the IPv4 maximum
    payload 65515.  Calls are sequential; time.Now() is the explicit [c_now] of each call. *)
 From Coq Require Import ZArith Bool List Permutation.
-From NP Require Import Model.Frag Proofs.FragHeapP Proofs.FragReasmP Proofs.FragP Proofs.FragTopP Proofs.FragExactP.
+From NP Require Import Model.Frag Proofs.FragHeapP Proofs.FragReasmP Proofs.FragP Proofs.FragTopP Proofs.FragExactP
+  Proofs.FragCoverP.
 Import ListNotations.
 Open Scope Z_scope.
 
@@ -206,3 +209,9 @@ Theorem C08_example :
     [([], false, false); ([], false, false); ([], false, false); ([], false, false); (exD, true, false)].
 Proof. exact reassembly_example. Qed.
 Print Assumptions C08_example.
+
+(* ---- the monitor's coverage test is the theorems' predicate *)
+Theorem C08_monitor_coverage_test : forall fs n,
+  coveredb (map (fun f => (i_first f, i_last f)) fs) n = true <-> covers fs n.
+Proof. exact coveredb_covers. Qed.
+Print Assumptions C08_monitor_coverage_test.
